@@ -73,7 +73,7 @@ COMMON_ASSUMES = [
     'Bevy semantics (command flush order, despawn/drop order, RemovedComponents) as modelled in World.v/Machine.v',
 ]
 
-def P(theorems, profiles, projection, assumes=(), determined=False, quick_n=320, thorough_n=20000):
+def P(theorems, profiles, projection, assumes=(), determined=False, quick_n=2400, thorough_n=40000):
     return {'theorems': theorems, 'profiles': profiles, 'projection': projection, 'assumes': COMMON_ASSUMES + list(assumes),
             'determined': determined, 'quick_n': quick_n, 'thorough_n': thorough_n}
 
